@@ -2,12 +2,15 @@
 from __future__ import annotations
 
 import ast
+import copy
+import re
 from collections import Counter
 
 from .pymodel import Program
 from .cymodel import CyProgram, X, pp, walk, rename_x, canonical_mapping, names_in
 from .kernels import report_sites
-from .idioms import diagonal_clear_target, symmetrises, inline_locals, strip_int
+from .idioms import (diagonal_clear_target, symmetrises, inline_locals, strip_int,
+                     inline_simple_helpers)
 from .loopir import canon_loopvars
 from .report import Run, AnalysisError
 
@@ -218,28 +221,57 @@ def w1_cross(run: Run, cy: CyProgram):
                     f"cross-link swap sets cross_A[{e[0]},{e[1]}] without the rejection "
                     f"loop testing that this cell is empty (tested: {sorted(tested)}): an "
                     f"existing cross link is overwritten and the link count drops")
-    # the link list swaps the second end points of the two links
-    # (target text, value text) of every store into the link list, tuple
-    # assignments taken element-wise; temporaries resolved to what they hold
+    # the link list swaps the second end points of the two links: the stores into
+    # the link list are replayed in order over a symbolic memory (cell -> the
+    # cell whose *initial* value it now holds); locals hold what they read
+    # when they were assigned (row unpacks `a, b = links[e]` element-wise)
+    def cell(e):
+        if e.k == "index" and pp(e.a[0]) == "cross_links" and len(e.a[1]) == 2:
+            return f"cross_links[{pp(e.a[1][0])}, {pp(e.a[1][1])}]"
+        if e.k == "index" and e.a[0].k == "index" and len(e.a[1]) == 1 and \
+                pp(e.a[0].a[0]) == "cross_links" and len(e.a[0].a[1]) == 1:
+            return f"cross_links[{pp(e.a[0].a[1][0])}, {pp(e.a[1][0])}]"
+        return None
+    mem = {}
     temp = {}
-    srcs = []
-    for st in body:
-        if st.k != "assign":
+
+    def value(e):
+        c = cell(e)
+        if c is not None:
+            return mem.get(c, c)
+        if e.k == "name":
+            return temp.get(e.a[0], e.a[0])
+        return pp(e)
+    for st in walk(body):
+        if not isinstance(st, X) or st.k != "assign":
             continue
-        if len(st.a[0]) == 1 and st.a[0][0].k == "name" and st.a[1].k == "index" and \
-                pp(st.a[1].a[0]) == "cross_links":
-            temp[st.a[0][0].a[0]] = pp(st.a[1])
-        pairs_ = []
-        if len(st.a[0]) == 1 and st.a[0][0].k == "tuple" and st.a[1].k == "tuple" and \
-                len(st.a[0][0].a[0]) == len(st.a[1].a[0]):
-            pairs_ = list(zip(st.a[0][0].a[0], st.a[1].a[0]))
+        if len(st.a[0]) == 1 and st.a[0][0].k == "tuple":
+            tgs = st.a[0][0].a[0]
+            if st.a[1].k == "tuple" and len(tgs) == len(st.a[1].a[0]):
+                vals = [value(v) for v in st.a[1].a[0]]
+            elif st.a[1].k == "index" and pp(st.a[1].a[0]) == "cross_links" and \
+                    len(st.a[1].a[1]) == 1:
+                row = pp(st.a[1].a[1][0])
+                vals = [mem.get(f"cross_links[{row}, {k}]", f"cross_links[{row}, {k}]")
+                        for k in range(len(tgs))]
+            else:
+                vals = [None] * len(tgs)
+            pairs_ = list(zip(tgs, vals))
         else:
-            pairs_ = [(t_, st.a[1]) for t_ in st.a[0]]
+            v = value(st.a[1])
+            pairs_ = [(t_, v) for t_ in st.a[0]]
         for t_, v_ in pairs_:
-            if t_.k == "index" and pp(t_.a[0]) == "cross_links":
-                srcs.append((pp(t_), temp.get(pp(v_), pp(v_))))
-    ok = ("cross_links[e1, 1]", "cross_links[e2, 1]") in srcs and \
-        ("cross_links[e2, 1]", "cross_links[e1, 1]") in srcs
+            c = cell(t_)
+            if c is not None:
+                mem[c] = v_ if v_ is not None else "?"
+            elif t_.k == "name":
+                if v_ is None:
+                    temp.pop(t_.a[0], None)
+                else:
+                    temp[t_.a[0]] = v_
+    srcs = sorted((c, v) for c, v in mem.items() if c != v)
+    ok = len(srcs) == 2 and srcs[0][0] == srcs[1][1] and srcs[0][1] == srcs[1][0] \
+        and all(re.fullmatch(r"cross_links\[(\w+), 1\]", c) for c, _ in srcs)
     run.oblige("W1", "cross:link-list", ok, sample={"updates": srcs})
     if not ok:
         run.add("W1", "_randomlyRewireCrossLinks/link-list", where,
@@ -393,7 +425,14 @@ def w5_siblings(run: Run, prog: Program, cy=None):
         if m is None:
             raise AnalysisError(f"SpatialNetwork.{name} vanished")
         # the value of every kernel argument, by the kernel's parameter name,
-        # with intermediate locals inlined (their names are irrelevant)
+        # with intermediate locals inlined (their names are irrelevant) and
+        # private input-collecting helpers replaced by their statements
+        def resolve(hname, _c=sn):
+            h = prog.lookup(_c, hname)
+            return h.node if h is not None and hname.startswith("_") else None
+        mnode = inline_simple_helpers(m.node, resolve)
+        m = copy.copy(m)
+        m.node = mnode
         d = {}
         kcalls = [c for c in ast.walk(m.node) if isinstance(c, ast.Call)
                   and isinstance(c.func, ast.Name)
